@@ -87,6 +87,14 @@ def classify_l1(c, model, prop):
     if go == "panic":
         out.append(dict(layer="property", what="Conn.ReadBatch / Batch.ReadMessage panicked", input=c))
         return out
+    # C02_progress: the model delivers a record from this response (its first batch is whole and holds a record at or
+    # after the fetch offset, the high watermark is above it); the real code must deliver one too unless the connection
+    # was cut or the deadline had passed
+    m5 = _split5(model)
+    if (g5 and m5 and go != model and m5[0] != "." and g5[0] == "." and not physcut and "late" not in feats
+            and "unordered-formats" not in feats and "cut<first" not in feats):
+        out.append(dict(layer="property", what="C02_progress: the fetch response holds records at and after the fetch offset below the high watermark, "
+                                               "the real Conn/Batch delivers none of them (the same fetch would be repeated forever)", input=c))
     # a connection cut inside the announced message set: reported by Close, connection closed — on every such case
     if physcut and g5 and (g5[3] == "nil" or g5[4] != "1"):
         out.append(dict(layer="property", what="the connection was cut inside the fetch response but Batch.Close returned nil / the connection was kept: "
@@ -105,6 +113,25 @@ def classify_l1(c, model, prop):
         out.append(dict(layer="property", what="Conn.offset after Batch.Close is below the offset the fetch was issued at", input=c))
     elif prop == "UNREPORTED-CUT":
         out.append(dict(layer="property", what="the connection was cut inside the fetch response but Batch.Close returned nil / the connection was kept", input=c))
+    return out
+
+
+def classify_rd(c, model, prop):
+    """Conn.Read / Batch.Read with buffers shorter than the next value, then a retry on the same Conn."""
+    out = []
+    if c["go"] == "panic":
+        return [dict(layer="property", what="Conn.Read / Batch.Read panicked", input=c)]
+    if prop == "VALUES":
+        out.append(dict(layer="property", what="io.Reader style reads: the values obtained by Read (retried with a larger buffer after io.ErrShortBuffer) "
+                                               "are not the stored records from the position, each once, in order", input=c))
+    elif prop == "SHORT-OFFSET":
+        out.append(dict(layer="property", what="io.Reader style reads: after io.ErrShortBuffer Batch.Offset() / Conn.Offset() is past the record that was "
+                                               "not handed out (a short-buffer read must not move the position)", input=c))
+    if c["go"] != model and not out:
+        out.append(dict(layer="correspondence", what="io.Reader style reads: model and Conn.Read / Batch.Read differ although the obtained values and "
+                                                     "offsets meet the predicate", input=None))
+    elif c["go"] != model:
+        out[0]["what"] += " (and the result differs from the model)"
     return out
 
 
@@ -134,6 +161,9 @@ def classify_e2e(c, model):
     if prop != "prop-ok":
         out.append(dict(layer="property",
                         what="end to end: FetchMessage returned a sequence that is not a prefix of the stored records from the start position", input=c))
+    elif "incomplete" in c["feats"].split(","):
+        out.append(dict(layer="property", what="end to end: every fetch was answered with the data at its offset, yet the Reader did not deliver all stored "
+                                               "records from its position (it keeps fetching the same offset)", input=c))
     if delivered != e2e_expected(c) or problems != "ok":
         kinds = sorted(set(p.split(" ")[0] for p in problems.split("+"))) if problems != "ok" else ["RETURNS"]
         if prop != "prop-ok":
@@ -173,6 +203,8 @@ def _judge(cases, res):
             fl = classify_l1(c, m, res.get(c["id"] + ".prop"))
         elif c["op"] == "enc":
             fl = [] if m == c["go"] else [dict(layer="correspondence", what="Spec/FetchSpec.v encoder differs from the Go reference encoder", input=None)]
+        elif c["op"] == "rd":
+            fl = classify_rd(c, m, res.get(c["id"] + ".prop"))
         elif c["op"] in ("e2e", "e2ef1"):
             fl = classify_e2e(c, m)
         else:
@@ -210,9 +242,9 @@ def correspondence(ctx):
                 rule="one PRNG (VERIF_SEED): layouts of 1..50 records in formats 0/1/2 (v0/v1 before v2; 1/8 unordered for model fidelity only), "
                      "codecs none/gzip/snappy/lz4/zstd, compaction holes (head, inner, tail), retained empty batches; fetch offset anywhere in the layout; "
                      "the encoded response cut at every byte (<= 260 bytes) or 16 sampled positions, physically cut connections, passed deadlines, hwm = offset; "
-                     "every byte-level result includes Batch.Close's result and whether the library closed the connection; " + SWEEP_RULE + "; "
+                     "every byte-level result includes Batch.Close's result and whether the library closed the connection; for fetch v5/v10 a third of the layouts get a partition header with the last stable offset below the high watermark (half of them exactly at the fetch offset), a log start offset and an aborted-transactions list; C02_progress is judged on every in-spec case (the model delivers => the real code must); the io.Reader style family (op rd, 150 cases: Conn.Read and Batch.Read on single-record v2 batches and v0/v1 message sets, each buffer shorter than the next value with probability 1/2, retried with a larger one on the same Conn: values obtained = stored records from the position, offsets after io.ErrShortBuffer unchanged, results compared with the model's batch_reads / reads_close); " + SWEEP_RULE + "; "
                      "fetch v2/v5/v10; end to end: real kafka.Reader on harness/fetchfake with scripted cuts, NotLeaderForPartition, OffsetOutOfRange, "
-                     "RequestTimedOut, disconnects, leader moves, re-packed layouts, SetOffset; the SetOffset family (140 scenarios: start by default / SetOffset at a record / in a hole / FirstOffset, "
+                     "RequestTimedOut, disconnects, leader moves, re-packed layouts, SetOffset, an open transaction (last stable offset at a batch base below the high watermark) in a third of the scenarios and the LSO family (36 scenarios: a fetch lands exactly on the last stable offset, fetch v2/v5/v10, the Reader must deliver every record); the SetOffset family (140 scenarios: start by default / SetOffset at a record / in a hole / FirstOffset, "
                      "exactly k = 0..3 reads by polling calls or with a first call that blocks until its message arrives (the call that starts the fetcher returns the first message), "
                      "then SetOffset to the same position, one past it, the last returned offset, one past that, or a hole, then reads); Reader.Offset() and Reader.Lag() "
                      "journalled after every call and compared with the model; every case is non-trivial (distinct by hash of op+args)",
